@@ -13,9 +13,7 @@ VERIF = os.path.dirname(os.path.dirname(os.path.abspath(__file__)))
 REPO = os.environ.get("UEC_BASE_REPO", "/repo")
 
 
-def make_scratch(edits, patch=None):
-    d = tempfile.mkdtemp(prefix="uec-mut-", dir="/tmp")
-    subprocess.check_call(["rsync", "-a", "--exclude", "target", "--exclude", ".git", REPO + "/", d + "/"])
+def apply_edits(d, edits):
     for e in edits or []:
         p = os.path.join(d, e["file"])
         s = open(p).read()
@@ -25,10 +23,22 @@ def make_scratch(edits, patch=None):
             raise RuntimeError("edit does not apply (%d occurrences, expected %s): %s :: %r" % (cnt, want, e["file"], e["old"][:80]))
         s = s.replace(e["old"], e["new"])
         open(p, "w").write(s)
+
+
+def make_scratch(edits, patch=None, post_edits=None):
+    """edits, then the patch, then post_edits (a mutation of code the patch introduced: a mutant of a refactored form)"""
+    d = tempfile.mkdtemp(prefix="uec-mut-", dir="/tmp")
+    # seeded/eval*.sh hold this lock while /repo carries a patch under evaluation: never copy a patched tree
+    import fcntl
+    with open("/tmp/uec-repo.lock", "a") as lk:
+        fcntl.flock(lk, fcntl.LOCK_EX)
+        subprocess.check_call(["rsync", "-a", "--exclude", "target", "--exclude", ".git", REPO + "/", d + "/"])
+    apply_edits(d, edits)
     if patch:
         if not os.path.isabs(patch):
             patch = os.path.join(VERIF, patch)
         subprocess.check_call(["patch", "-p1", "-s", "-d", d, "-i", patch])
+    apply_edits(d, post_edits)
     return d
 
 
@@ -118,7 +128,7 @@ def judge(entry, res):
 def one(entry, lane, keep=False):
     t0 = time.time()
     try:
-        d = make_scratch(entry.get("edits"), entry.get("patch"))
+        d = make_scratch(entry.get("edits"), entry.get("patch"), entry.get("post_edits"))
     except Exception as e:
         return entry["id"], False, "SETUP: %s" % e, {}
     try:
